@@ -34,8 +34,10 @@ def steps(cv_plane, arms_l, arms_r, d: float):
     cv_plane: (H, W) float32 with NaN; arms_l: (H, W, 4) ; arms_r: (H, Wr, 4)."""
     _, cbca = _mods()
     cv_plane = np.ascontiguousarray(cv_plane, dtype=np.float32)
-    arms_l = np.ascontiguousarray(arms_l, dtype=np.int16)
-    arms_r = np.ascontiguousarray(arms_r, dtype=np.int16)
+    # the arm arrays have the type the real cross_support produces (the kernels are compiled for it)
+    arm_dtype = cbca.cross_support(np.zeros((1, 1), dtype=np.float32), np.int16(1), np.float32(1.0)).dtype
+    arms_l = np.ascontiguousarray(arms_l, dtype=arm_dtype)
+    arms_r = np.ascontiguousarray(arms_r, dtype=arm_dtype)
     n_row_ = cv_plane.shape[1]
     range_col = np.arange(0, n_row_)
     range_col_right = range_col + d
